@@ -32,6 +32,7 @@ def requests():
         Request(D + "ForwardProjectorByBin.cxx", fn=["stir::ForwardProjectorByBin::forward_project"]),
         Request(D + "BackProjectorByBin.cxx", fn=["stir::BackProjectorByBin::back_project", "stir::BackProjectorByBin::start_accumulating_in_new_target"]),
         Request(D + "ForwardProjectorByBinUsingRayTracing.cxx", fn=["stir::ForwardProjectorByBinUsingRayTracing::forward_project_all_symmetries.*"]),
+        Request(D + "ForwardProjectorByBinUsingRayTracing.cxx", fn=["stir::ForwardProjectorByBinUsingRayTracing::.*"]),
     ]
 
 
@@ -551,6 +552,109 @@ def rule_g_producer_covers_consumer(ctx, fns):
     return n
 
 
+def _viewgram_element_writes(f):
+    """(node, op) for every write to an element V[a][t] of a Viewgram<float> in f"""
+    out = []
+    for m in f.walk():
+        if m.k in ("BinaryOperator", "CompoundAssignOperator") and m.op in ("=", "+=", "-=", "*=", "/=") and len(m.c) == 2:
+            root, idx = _chain(m.c[0])
+            if len(idx) == 2 and "Viewgram<float>" in (root.strip().type or ""):
+                out.append((m, m.op))
+    return out
+
+
+def rule_h_forward_projection_overwrites(ctx, matrix_fns, rt_fns):
+    """`forward_project(viewgrams, ...)` overwrites the requested range of the viewgrams (documented in ForwardProjectorByBin; the data
+    set variant depends on it when the viewgrams it is handed are not empty).  Sibling implementations must agree: an implementation
+    either writes every element with a plain assignment, or - when its kernels accumulate with += - sets the requested range of every
+    viewgram to 0 before the first kernel is called."""
+    RULE = "C04.h-forward-projection-overwrites"
+    n = 0
+    for f in matrix_fns:
+        ws = _viewgram_element_writes(f)
+        if not ws:
+            ctx.unrec(f.qn, "no write to a viewgram element found in the matrix-based forward projector")
+            continue
+        bad = [m for m, op in ws if op != "="]
+        ctx.ob(RULE, f.qn, "element-writes", not bad, (bad[0] if bad else ws[0][0]).where(), "all %d writes to viewgram elements are plain assignments" % len(ws) if not bad else "the matrix-based forward projector accumulates (`%s`) into the viewgrams it is given, while its sibling overwrites" % bad[0].op)
+        n += 1
+    kernels = {}
+    for f in rt_fns:
+        if f.body is None or f.short == "actual_forward_project":
+            continue
+        acc = [m for m, op in _viewgram_element_writes(f) if op != "="]
+        if acc and any("Viewgram<float>" in p["t"] for p in f.params):
+            kernels[f.short] = len(acc)
+    # wrappers that hand their viewgrams on to an accumulating kernel accumulate as well (closure over the class's own calls)
+    changed = True
+    while changed:
+        changed = False
+        for f in rt_fns:
+            if f.body is None or f.short == "actual_forward_project" or f.short in kernels or not any("Viewgram<float>" in p["t"] for p in f.params):
+                continue
+            if any((c.callee or "").split("::")[-1] in kernels and "ForwardProjectorByBinUsingRayTracing" in (c.callee or "") for c in f.calls()):
+                kernels[f.short] = 0
+                changed = True
+    ctx.stats["ray_tracing_kernels_accumulating"] = sorted(kernels)
+    for f in rt_fns:
+        if f.body is None or f.short != "actual_forward_project" or len(f.params) != 6 or "RelatedViewgrams" not in f.params[0]["t"]:
+            continue
+        calls = [c for c in f.calls() if (c.callee or "").split("::")[-1] in kernels]
+        if not kernels or not calls:
+            ctx.unrec(f.qn, "no accumulating kernel called from the ray tracing actual_forward_project (kernels: %s)" % sorted(kernels))
+            continue
+        cfg = CFG(f)
+        pn = ["v%d" % p["d"] for p in f.params]
+        vg, (amin, amax, tmin, tmax) = pn[0], pn[2:6]
+
+        def in_graph(x):
+            while x is not None and x.i not in cfg.pos:
+                x = x.parent
+            return x
+
+        from engine.loops import bounds as lbounds
+
+        zero = None
+        why = "no statement sets the requested range of the viewgrams to 0"
+        for m in f.walk():
+            if not (m.k == "BinaryOperator" and m.op == "=" and len(m.c) == 2 and key(m.c[1].strip()) in ("0", "0.0")):
+                continue
+            root, idx = _chain(m.c[0])
+            if len(idx) != 2 or "Viewgram<float>" not in (root.strip().type or ""):
+                continue
+            loops = [a for a in m.ancestors() if a.k in ("ForStmt", "CXXForRangeStmt")]
+            bs = {}
+            outer = None
+            for lp in loops:
+                if lp.k == "ForStmt":
+                    b = lbounds(lp)
+                    if b is not None:
+                        bs["v%d" % b["d"]] = (b["init"], b["upper"], str(b["step"]))
+                        continue
+                # the loop over the related viewgrams: begin() .. end() of the first parameter (or a range-for over it)
+                kk = key(lp)
+                inits = [key(x.c[0].strip()) for x in (lp.c[0].walk() if lp.c else []) if x.k == "VarDecl" and x.c]
+                if (lp.k == "ForStmt" and "%s.begin()" % vg in inits and "%s.end()" % vg in key(lp.c[1])) or (lp.k == "CXXForRangeStmt" and vg in kk):
+                    outer = lp
+            ia, it = key(idx[0]), key(idx[1])
+            ok_a = bs.get(ia) == (amin, amax, "1")
+            ok_t = bs.get(it) == (tmin, tmax, "1")
+            if not (ok_a and ok_t and outer is not None):
+                why = "the zeroing at line %d does not cover [min_axial_pos_num, max_axial_pos_num] x [min_tangential_pos_num, max_tangential_pos_num] of every viewgram (axial %s, tangential %s, all viewgrams %s)" % (m.line, bs.get(ia), bs.get(it), outer is not None)
+                continue
+            g = in_graph(outer.c[0]) if outer.c else None
+            first = [in_graph(c) for c in calls]
+            if g is None or any(c is None or not cfg.dominates(g, c) for c in first):
+                why = "the zeroing at line %d does not come before every kernel call" % m.line
+                continue
+            zero = m
+            break
+        ok = zero is not None
+        ctx.ob(RULE, f.qn, "requested-range-zeroed-before-accumulating", ok, (zero if ok else f).where(), "the %d accumulating kernels (%s) are only called after the requested range of every viewgram has been set to 0" % (len(kernels), ", ".join(sorted(kernels))[:120]) if ok else "the ray tracing kernels add (+=) to the viewgrams, and %s: the projector adds to the data already present while ForwardProjectorByBinUsingProjMatrixByBin overwrites them" % why)
+        n += 1
+    return n
+
+
 def run(ctx):
     ctx.explanation = (
         "Decides structural necessary conditions only: (a) the row-level forward and back projection use the same elements under the same "
@@ -583,6 +687,8 @@ def run(ctx):
     n = rule_e(ctx, [f for f in us[5].functions if f.body is not None])
     if n < 2:
         ctx.fail_broken("tangential sub-range rule matched %d functions (2 confirmed by hand)" % n)
+    rule_h_forward_projection_overwrites(ctx, ff[:1], [f for f in us[6].functions if f.body is not None])
+    ctx.require_count("C04.h-forward-projection-overwrites", 2)
     ctx.require_count("C04.a-one-row-two-directions", 3)
     ctx.require_count("C04.b-matched-skeletons", 2)
     ctx.require_count("C04.d-accumulation", 3)
